@@ -115,6 +115,13 @@ func (c13) RunCase(c *core.Ctx) {
 	if c.Case%25 == 3 && !c13Errors(c) {
 		return
 	}
+	if c.Case%100 == 10 {
+		c.Eval(8)
+		if problem := dModesAgreeMore(); problem != "" {
+			c.Violation("modes-disagree|directed", map[string]any{"observed": problem})
+			return
+		}
+	}
 	if c.Case%100 == 9 {
 		c.Eval(6)
 		if problem := dRowTransforms(); problem != "" {
